@@ -12,7 +12,7 @@ MODULES = ["DV.Properties.C02", "DV.Properties.C02Tables"]
 
 HDR_VALS = {
     "ver": [1, 0, 255, 2],
-    "flags": [0x80, 0x00, 0xc0, 0x40, 0xa0, 0x90, 0xf0, 0xff, 0x0f, 0x01],
+    "flags": [0x80, 0x00, 0xc0, 0x40, 0xa0, 0x90, 0xf0, 0xff, 0x0f, 0x01, 0x10, 0x30, 0x50, 0x70, 0x20, 0x60],
     "u32": [0, 1, 2**31, 2**32 - 1, 0x12345678],
 }
 
